@@ -2,7 +2,7 @@ import Splipy.Lemmas.C17Group
 
 /-! Lemmas for C17: `Orientation.compute` is exactly the ordered search for a fitting orientation. -/
 
-namespace Splipy
+namespace Splipy.MP
 
 /-- `o` maps `b` onto `a`: the test inside the double loop of `Orientation.compute`
     (transposed shape agrees, the control nets agree after `map_array`, the bases match). -/
@@ -75,4 +75,4 @@ theorem shape_perm_of_fits {o : Orientation} {a b : Obj} (ho : o.WF a.pardim)
   rw [map_getD_range' b.shape 0 hb] at this
   exact this
 
-end Splipy
+end Splipy.MP
